@@ -192,6 +192,44 @@ def run(chk, tier):
             chk.ok("R08.3", "wired|" + n)
         else:
             chk.bad("R08.3", "wired|" + n, "DEFAULT_MACROS[%s] = %s" % (n, tg.get(n)), run_["file"])
+    # R08.5 where absence comes from: the failure classes produced by field access and by identifier resolution
+    chk.rule("R08.5", "the failures that mean `absent` are produced exactly where data is missing: a field access that finds neither the field nor a callable of that name yields an "
+                      "Attribute error (on a map without the key AND on a value that has no fields), an identifier that resolves to nothing yields a Binding error, and the "
+                      "value or failure of a referenced stored program is passed on unchanged (its absent-class failures stay absent-class)")
+    import re as _re
+    import semtables, vmtable
+    vm_ = vmtable.VM(F)
+    rows_ = semtables.arm_paths(F, vm_, "Access") or []
+    n_attr = 0
+    for preds, ev in rows_:
+        obj = None
+        for k_, v_ in preds.items():
+            if _re.match(r"^variant\(CelStackValue::into_value\(pop2\)\.Ok\.0\)$", k_):
+                obj = v_
+        pushes = [e[1] for e in ev if e[0] == "push"]
+        if len(pushes) != 1 or obj is None:
+            continue
+        pv = str(pushes[0])
+        has_field = any(_re.match(r"^variant\(HashMap::get\(", k_) and v_ == "Some" for k_, v_ in preds.items())
+        if "BoundCall" in pv or has_field:
+            continue
+        plain = isinstance(obj, tuple) and obj[0] == "not"          # not a map, user object or message: a value without fields
+        if obj == "Map" or plain:
+            key_ = "Access|%s without the field" % ("map" if obj == "Map" else "value that has no fields")
+            if "CelError::attribute(" in pv:
+                n_attr += 1
+                chk.ok("R08.5", key_, pv[:90])
+            else:
+                chk.bad("R08.5", key_, "field access on a %s pushes %s: a missing field must be an Attribute error (the class has() / coalesce() treat as absent), "
+                                       "otherwise `has(a.i.c)` with a scalar `a.i` fails instead of answering false" % ("map without that key" if obj == "Map" else "value that has no fields", pv[:120]), vm_.b.file)
+    chk.floor("R08.5", "absent-field rows of the Access arm (map miss, value without fields)", n_attr, 2)
+    import C12 as _c12
+    hit_rows, okp = _c12.pop_program_rows(F)
+    if hit_rows and len(okp) == len(hit_rows):
+        chk.ok("R08.5", "referenced program result passed on unchanged", hit_rows[0][:100])
+    else:
+        chk.bad("R08.5", "referenced program result passed on unchanged", "the failure of a referenced stored program is re-wrapped (%s): an absent field inside that program is no longer "
+                                                                          "absent for has() / coalesce()" % [r_[:120] for r_ in hit_rows if r_ not in okp][:2], "rscel/src/interp/interp.rs")
     return chk.finish(
         "Error-class partition extracted from the MIR discriminant switches of has_impl / coalesce_impl; who-may-construct rule for the absent "
         "class over the whole call graph; registry wiring. Decides which failures count as absence; does not decide user Dyn classes.",
